@@ -175,6 +175,12 @@ func gen(tier string) []proto.Item {
 				}
 			}
 		}
+		if vi.Kind == "sack" {
+			// the SYN-ACK of another connection to the same target port is captured before the run's own
+			s := base(v, rng{1, 4}, 3)
+			s.SynAck = &simnet.SynAckSpec{Enabled: true, ISN: 0x1234, AckNum: 0x8000, SackPermitted: true, WrongFirst: true}
+			items = append(items, proto.Item{Scn: s, Class: v + "/other-connections-synack-first"})
+		}
 		// SACK: every history of the probes that reach the target (acknowledged / acknowledgement lost / probe lost),
 		// for initial sequence numbers such that the 2^32 wrap falls inside the probed range
 		if vi.Kind == "sack" {
